@@ -119,12 +119,19 @@ def requests_for(mname: str, kw: dict[str, Any]) -> list[tuple[str, int]]:
     return reqs
 
 
-def issue(mname: str, kw: dict[str, Any], req: tuple[str, int], pts: list[int]) -> np.ndarray:
+def issue(mname: str, kw: dict[str, Any], req: tuple[str, int], pts: list[int], buffers: dict[Any, np.ndarray] | None = None) -> np.ndarray:
     kind, k = req
     if mname == "de-vec":
         x = np.array([POOL[i] for i in pts]).T.copy()  # (n, S)
     else:
         x = POOL[pts[0]].copy()
+    if buffers is not None:
+        # the algorithm owns one array per shape and overwrites it in place for every new point / population
+        if x.shape in buffers:
+            buffers[x.shape][...] = x
+            x = buffers[x.shape]
+        else:
+            buffers[x.shape] = x
     if kind == "f":
         return np.asarray(kw["func" if mname.startswith("de") else "fun"](x), dtype=np.float64)
     if kind == "g":
@@ -149,9 +156,10 @@ def run_plugin(cfg: EnOptConfig, mname: str, n_con: int, sequence: list[Any], ph
 
     def driver(cap: Captured) -> None:
         reqs = requests_for(mname, cap.kwargs)
+        buffers: dict[Any, np.ndarray] = {}
         for req_i, pts in current["seq"]:
             marks.append(len(rec.calls))
-            out.append(issue(mname, cap.kwargs, reqs[req_i], pts))
+            out.append(np.array(issue(mname, cap.kwargs, reqs[req_i], pts, buffers), copy=True))
         marks.append(len(rec.calls))
 
     with capture(driver):
